@@ -45,9 +45,17 @@ type Case struct {
 	NCalls   int    `json:"ncalls"`
 }
 
-func (c *Case) Label() string {
+func (c *Case) Label() string { return c.label(false) }
+
+// ShortLabel stops at the first Close (the verdicts are taken there).
+func (c *Case) ShortLabel() string { return c.label(true) }
+
+func (c *Case) label(short bool) string {
 	s := ""
-	for _, cl := range c.Calls {
+	for i, cl := range c.Calls {
+		if short && i > 0 && c.Calls[i-1].Op == "c" {
+			break
+		}
 		if cl.Op == "w" {
 			s += fmt.Sprintf("w%d.", cl.K)
 		} else {
@@ -272,7 +280,7 @@ func Run(run *vk.Run, what, cfg string) {
 				run.Drift("%s (%s, not this property's clause): %s: %s", p.Kind, what, label, p.Detail)
 				continue
 			}
-			run.Violation(fmt.Sprintf("%s:armor-writer-%s:%s", run.Prop, p.Kind, label), p.Detail,
+			run.Violation(fmt.Sprintf("%s:armor-writer-%s:%s", run.Prop, p.Kind, c.ShortLabel()), p.Detail,
 				map[string]interface{}{"check": "armwr", "case": json.RawMessage(lines[i]), "seed": run.Seed + int64(i%5)})
 		}
 		if out.Mismatch != "" {
